@@ -71,7 +71,8 @@ JudgeStep(e, pre) ==
       \* operands it has consumed (C10: "may at most have consumed operands it had already taken"): any post-state
       \* within the unfired clause of the frame condition is accepted, not only the one the implementation produces today
       lax  == sr.kind = "instr" /\ ~sr.res.fired /\ ~Crashed(e) /\ FrameOK(pre.exec[1].v, PopN(pre, "exec", 1), e.post, FALSE)
-      ok   == ~Crashed(e) /\ (Matches(sr.res, e.post) \/ lax) /\ e.ret = sr.done
+      alts == IF sr.kind = "instr" THEN AltRand(pre.exec[1].v, PopN(pre, "exec", 1)) ELSE <<>>
+      ok   == ~Crashed(e) /\ (Matches(sr.res, e.post) \/ lax \/ \E k \in 1..Len(alts) : Matches(alts[k], e.post)) /\ e.ret = sr.done
       dev  == IF ok THEN "" ELSE FirstDev(DevStep(pre), e)
   IN [v |-> IF ok THEN "ok" ELSE IF dev # "" THEN "dev" ELSE IF Crashed(e) THEN "crash" ELSE "mismatch",
       subj |-> subj, owner |-> Owner(subj), dev |-> dev,
@@ -138,6 +139,10 @@ JudgeRun(e, ch, tainted) ==
   ELSE LET c2 == SubSeq(ch, 2, Len(ch))       \* drop the state before copy_to_code
            cfg == c2[1].st.cfg
            m  == RunMachine(c2, 0, cfg.push_limit, cfg.growth_cap)
+           \* C02 leaves the boundary open ("never more than eval_push_limit+1 steps, never for a program that needs
+           \* fewer than eval_push_limit steps"): stopping after limit steps instead of limit+1 is within the property
+           m2 == RunMachine(c2, 0, cfg.push_limit - 1, cfg.growth_cap)
+           okWith(mm, needx) == mm.out # "undetermined" /\ e.ret = mm.out /\ e.post = mm.fin /\ (needx /\ HasF(e.act, "xout") => e.ret = e.act.xout)
            sleeps == IF HasF(e, "sleeps") THEN e.sleeps ELSE 0
        IN \* time: only one-sided, causally sound inequalities (never a wall-clock equality)
           IF e.ret = "TimeLimitExceeded"
@@ -150,7 +155,7 @@ JudgeRun(e, ch, tainted) ==
           THEN Verdict("mismatch", "run", "C02", <<"outcome">>,
                        "the time limit had passed before the last of " \o ToString(sleeps) \o " sleeps but run() went on")
           ELSE IF m.out = "undetermined" THEN Blank("ok", "run:undetermined")
-          ELSE IF e.ret = m.out /\ e.post = m.fin /\ (HasF(e.act, "xout") => e.ret = e.act.xout) THEN Blank("ok", "run")
+          ELSE IF okWith(m, TRUE) \/ (cfg.push_limit > MinInt /\ okWith(m2, FALSE)) THEN Blank("ok", "run")
           ELSE Verdict("mismatch", "run", "C02",
                        (IF e.ret # m.out THEN <<"outcome">> ELSE <<>>) \o SetAsSeq({f \in AllFields : e.post[f] # m.fin[f]}),
                        "run() returned " \o e.ret \o ", the loop machine fed with the recorded steps gives " \o m.out
